@@ -82,10 +82,13 @@ type Loc struct {
 type State struct {
 	h     map[string]string
 	epoch int
+	// a state produced by merging predecessors with different epochs: heaps not mentioned so far are merged lazily
+	preds []*State
+	conds []string
 }
 
 func (s *State) clone() *State {
-	n := &State{h: make(map[string]string, len(s.h)), epoch: s.epoch}
+	n := &State{h: make(map[string]string, len(s.h)), epoch: s.epoch, preds: s.preds, conds: s.conds}
 	for k, v := range s.h {
 		n.h[k] = v
 	}
@@ -217,6 +220,17 @@ func (g *Gen) bindConst(prefix, sort, term string) string {
 	return c
 }
 
+// engineQuantTag marks engine-generated quantified background axioms (heap well-formedness, copy/append contents):
+// they are left out of satisfiability (vacuity) queries, which they make very slow without affecting the answer in practice.
+const engineQuantTag = "; engine-quantifier\n"
+
+func (g *Gen) assumeEngineQuant(term string) {
+	if g.pure > 0 {
+		return
+	}
+	g.emit(engineQuantTag + "(assert " + term + ")")
+}
+
 func (g *Gen) assume(term string) {
 	if term == "true" || term == "" {
 		return
@@ -255,6 +269,25 @@ func (g *Gen) regHeap(name, sort string) string {
 
 func (g *Gen) heapGet(st *State, name string) string {
 	if t, ok := st.h[name]; ok {
+		return t
+	}
+	if len(st.preds) > 0 && g.pure == 0 {
+		// lazily merge the predecessors' versions of a heap first mentioned after the merge
+		var ts []string
+		for _, p := range st.preds {
+			ts = append(ts, g.heapGet(p, name))
+		}
+		same := true
+		for _, t := range ts[1:] {
+			if t != ts[0] {
+				same = false
+			}
+		}
+		t := ts[0]
+		if !same {
+			t = g.define(name, g.heapSort(name), mergeTerms(st.conds, ts))
+		}
+		st.h[name] = t
 		return t
 	}
 	ep := st.epoch
@@ -346,7 +379,7 @@ func (g *Gen) heapWF(st *State, name, sym string, ep int) {
 		}
 		conj = append(conj, c)
 	}
-	g.assume(fmt.Sprintf("(forall %s (! (=> %s %s) :pattern (%s)))", binders, oldObj("r!", base), sAnd(conj...), sel))
+	g.emit(engineQuantTag + fmt.Sprintf("(assert (forall %s (! (=> %s %s) :pattern (%s))))", binders, oldObj("r!", base), sAnd(conj...), sel))
 }
 
 func (g *Gen) heapSet(st *State, name, term string) {
@@ -372,6 +405,7 @@ func (g *Gen) havocAll(st *State) {
 	}
 	g.nEpoch++
 	st.epoch = g.nEpoch
+	st.preds, st.conds = nil, nil
 	st.h = ghosts
 	newAlloc := g.heapGet(st, g.allocHeap())
 	g.assume(app(">=", newAlloc, oldAlloc))
@@ -537,7 +571,11 @@ func (g *Gen) typeInv(t string, ty types.Type, st *State, depth int) string {
 	case *types.Pointer:
 		lo := app("<=", "0", t)
 		if _, isArr := u.Elem().Underlying().(*types.Array); isArr {
-			lo = "true" // arrays embedded in heap objects have derived (negative) references
+			// arrays embedded in heap objects have derived (negative) references: of an existing object
+			if st != nil {
+				return sOr(app("=", t, "0"), oldObj(t, g.heapGet(st, g.allocHeap())))
+			}
+			return "true"
 		}
 		if st != nil {
 			return sAnd(lo, app("<", t, g.heapGet(st, g.allocHeap())))
@@ -627,9 +665,16 @@ func (o *Oblig) Script(models bool) string {
 	g := o.Gen
 	var b strings.Builder
 	b.WriteString("(set-option :produce-models true)\n(set-logic ALL)\n")
-	b.WriteString(prelude)
+	if o.Expect == "sat" {
+		b.WriteString(strings.Replace(prelude, preludeFaAxiom, "", 1))
+	} else {
+		b.WriteString(prelude)
+	}
 	b.WriteString(g.sorts.Decls())
 	for _, c := range g.cmds[:o.NCmds] {
+		if o.Expect == "sat" && strings.HasPrefix(c, engineQuantTag) {
+			continue
+		}
 		b.WriteString(c)
 		b.WriteString("\n")
 	}
